@@ -217,6 +217,8 @@ SPEC_MUTANTS = [
     ("NestChain", "quick", "the chain polls its ended first input (the inner merge) again instead of moving on",
      ["/\\ fs' = [fs EXCEPT !.icomplete = @ + 1, !.ist[c] = \"N\", !.index = 1, !.lvl = \"outer\"]"],
      ["/\\ fs' = [fs EXCEPT !.icomplete = @ + 1, !.ist[c] = \"N\", !.lvl = \"outer\"]"]),
+    ("NestGroup", "quick", "a leaf's wake-up marks its member's bit but does not reach the group's slot (broken chain member -> group)",
+     ["/\\ fs' = [fs EXCEPT !.ird[mb] = RSet(@, c), !.ord = RSet(@, slot)]"], ["/\\ fs' = [fs EXCEPT !.ird[mb] = RSet(@, c)]"]),
 ]
 
 
